@@ -30,7 +30,7 @@ fn top_string_is(ev: &Evaluator<'_, '_>, chars: &[char]) -> bool {
     }
 }
 
-// @harness id=c18_slice_string_negative props=C18,C02 tier=quick cap=1500
+// @harness id=c18_slice_string_negative props=C18,C02 tier=thorough cap=1500
 // @desc do_slice_string (s[a:b], std.slice on strings) on a string of two arbitrary characters (any UTF-8 widths) with the slices [-1:], [:-1] and [1:]: negative bounds count CHARACTERS from the end, so the results are the last character, the first character and the last character
 // @bound strings of 2 arbitrary Unicode scalar values (2..8 bytes), three slice shapes
 // @funcs Evaluator::do_slice_string, Evaluator::get_slice_range
